@@ -9,7 +9,7 @@ ANCHORS = [('src/msmhelper/msm/msm.py', ['equilibrium_population', 'row_normaliz
            ('src/msmhelper/utils/tests.py', ['is_ergodic', 'ergodic_mask', 'is_transition_matrix']),
            ('src/msmhelper/msm/utils/linalg.py', ['left_eigenvectors', '_eigenvectors'])]
 RULE = ('same matrix stream as C14 (exhaustive 0..2 count matrices n=2,3; Wielandt; cycles; random irreducible / reducible with transient, absorbing, '
-        'never-entered, never-visited states and ties), each with allow_non_ergodic True and False. Sentence 1 (unique aperiodic closed class larger '
+        'never-entered, never-visited states and ties; symmetric and nearly symmetric (asymmetry 5e-7 … 3e-5) doubly stochastic matrices), each with allow_non_ergodic True and False. Sentence 1 (unique aperiodic closed class larger '
         'than the others) is judged against the exact stationary vector (1e-9); other accepted inputs by the generic clause (real, >= 0, sums to 1, '
         'stationary on its support). Non-trivial = reducible or rejected; distinct by (matrix, flag).')
 RELATION = '|peq(T) - Linalg.equilibrium T| <= 1e-9 where the exact stationary vector is unique; LAPACK is outside the model (its output is judged)'
@@ -26,6 +26,21 @@ def cases(tier, rng, boost=1):
         for reps in (1, 2):
             Mw = gen.normalise_counts(gen.block_diag([gen.wielandt(n)] + [[[1]]] * reps))
             yield _mk([[float(v) for v in row] for row in Mw], True, 'wielandt+absorbing')
+    srng = core.Rng(31)
+    for k in range({'quick': 24, 'thorough': 200, 'search': 60}[tier]):
+        n = srng.randint(2, 6)
+        A = np.array([[srng.randint(1, 9) for _ in range(n)] for _ in range(n)], dtype=np.float64)
+        A = A + A.T                                   # symmetric counts
+        big = A.sum(axis=1).max()
+        S = A / (2 * big)
+        S[np.diag_indices(n)] += 1 - S.sum(axis=1)    # symmetric AND row-stochastic (doubly stochastic)
+        M = S.copy()
+        if k % 3:                                     # nearly symmetric: move a little probability inside one row
+            i, j = srng.sample(range(n), 2)
+            d = srng.choice([2e-6, 1e-6, 5e-7, 3e-5])
+            M[i, j] += d
+            M[i, i] -= d
+        yield _mk([[float(v) for v in row] for row in M], k % 2 == 0, 'symmetric' if not k % 3 else 'nearly_symmetric')
     for c, tag in gen.count_matrices(tier, rng, boost):
         M = gen.normalise_counts(c)
         if not M.any():
